@@ -11,7 +11,8 @@ from fractions import Fraction
 
 import numpy as np
 
-from common import zlit, qlit, lst, natlit, coq_bad_indices, parallel_coq_bad, CoqError
+from common import zlit, qlit, lst, natlit, blit, opt, coq_bad_indices, parallel_coq_bad, CoqError
+import c07_exact
 
 PROP = "C07"
 PROPERTY_FILE = "Properties/C07.v"
@@ -19,53 +20,86 @@ GEN_DEPS = []
 RULE = ("items generated from the seed; 3 of 4 are one pricing on a fresh engine, 1 of 4 is a SEQUENCE of 2-4 pricings on ONE Engine "
         "instance (configuration.mc_paths lowered / raised / equal between pricings, same or another product, payoff dimension "
         "changed when there are no controls). path sets of 1-40 dyadic values k/8 in [0,8] (thorough: up to 300), payoff = vector of "
-        "calls with 1-4 dyadic strikes (scalar and vector form), notional and df dyadic, 0-3 controls drawn from {forward, x^2/8, "
-        "call, PUT} with notionals in {1, 2, 1/2, -1, -1/2} (call+put pairs forced half of the time, so Sigma_X has negative "
-        "entries in ~45% of the multi-control runs), prices scalars (d = 1) or per-component arrays, arbitrary or equal to the "
-        "controls' sample means; non-trivial = at least 3 paths and (d >= 2 or a control), or any re-pricing on a used engine")
-MODELLED = ["standard Engine.price single-process loop, MCPath.process/discount, Product.__call__, MCStatistics.price/mc_stddev, "
-            "tools.mean/stddev/mc_stddev, ControlVariates.helper_compute_coefficients/compute_coefficients: hand model "
-            "Model/McStats.v tied by vm_compute correspondence",
-            "b* = np.linalg.lstsq on the correlation matrix (fix-mc5 38cca5a) is modelled by its specification (returns a solution of the normal equations, also for collinear controls); the closed forms for one "
-            "and two controls are proved to satisfy it; three or more controls have NO b* in the model (exact Fraction solve in the "
-            "oracle). For EVERY case (no skip) the oracle checks var(adj) <= var(raw), price() = mean(adj) and that adj is uncorrelated with every "
-            "control (the b-free form of the normal equations); only the row-by-row comparison with one particular b* is restricted to "
-            "|det Sigma_X| >= 1e-3 * prod diag (b* is not unique for collinear controls)",
-            "spot statistics on in 30% of the engines (stored spot values checked); get_variance() checked against the unbiased variance",
+        "calls with 1-4 dyadic strikes (scalar and vector form), notional and df dyadic, 0-4 controls drawn from {forward, x^2/8, "
+        "call, PUT} with notionals in {1, 2, 1/2, -1, -1/2, 2^-24, 2^20} (call+put pairs forced half of the time; exactly COLLINEAR sets "
+        "{forward, call K, put K} forced in half of the runs with 3-4 controls, duplicated controls in 15% of the 2-control runs), prices "
+        "scalars (d = 1) or per-component arrays, arbitrary or equal to the controls' sample means; plus 48 (thorough 600) single pricings "
+        "without controls that alternate nb_of_processes = 1 / 2 (real pathos pool), spot statistics on / off, n = 0, 1, 2, 3 and 2-40 (300) "
+        "pairwise distinct path values; non-trivial = at least 3 paths and (d >= 2 or a control or 2 processes or spot statistics on), or "
+        "any re-pricing on a used engine")
+MODELLED = ["standard Engine.price, BOTH branches of the Monte-Carlo loop (engine.py:116-149): the single-process loop and the multi-process "
+            "branch (pool.map_async + callback; which draw gets which iteration index is an oracle sigma, the list of delivered results is "
+            "arbitrary), MCPath.process/discount, Product.__call__, MCStatistics.add with the spot statistics on or off, "
+            "MCStatistics.price/mc_stddev/get_variance as reported for n = 0 (price 0, mc_stddev raises AttributeError, get_variance nan), "
+            "n = 1 (the single number 0.0) and n >= 2, tools.mean/stddev/mc_stddev, ControlVariates.helper_compute_coefficients/"
+            "compute_coefficients: hand models Model/McStats.v, Model/McStdFull.v, Model/McCv.v tied by vm_compute correspondence",
+            "b* for ANY number of controls: the guard, else np.linalg.lstsq on the correlation matrix modelled by its specification written "
+            "without square roots (Sigma b = Sigma_XY and diag(Sigma) b = Sigma w for some w: the solution of minimal norm on the "
+            "correlation scale; proved unique, so the model has exactly one b* also for collinear controls). The harness computes (b, w) "
+            "by an exact Fraction solve (harness/c07_exact.py); Coq re-checks the specification on the replayed sample (code_bb, proved "
+            "sound) and compares Y - b.(X - p) with the adjusted rows the implementation stored (1e-6), for 1-4 controls, full rank, "
+            "collinear (rank 1-3) and guarded; only components with 0 < |det Sigma_X| < 1e-9 prod diag are skipped (counted in the evidence). "
+            "The closed forms for one and two controls remain as a second, independent model (group cv)",
+            "for EVERY case (no skip) the oracle checks var(adj) <= var(raw), price() = mean(adj) and that adj is uncorrelated with every "
+            "control (the b-free form of the normal equations)",
+            "multi-process runs are real 2-process pathos pools on a scripted process whose path values come from a shared-memory counter; "
+            "the assignment sigma is OBSERVED through the spot statistics (a different code path than the payoff rows) and fed to the model; "
+            "the oracle checks that every simulated spot value is stored exactly once and that price / error are those of the path set",
             "the engine's statistics across pricings are state; np.empty is an oracle that may return the previous rows (the executable "
-            "model recycles them); n = 1: mc_stddev() is the single number 0.0 whatever d (modelled); n = 0: price() is 0 and "
-            "mc_stddev() raises AttributeError ('float' has no 'size') -- recorded in the evidence, not modelled",
-            "np.cov(bias=True), np.std(ddof=1), np.mean: modelled as the textbook sums",
-            "multiprocess path, spot statistics: not modelled"]
-ASSUMPTIONS = ["nb_of_processes = 1", "the error is compared squared (Q has no square root): mc_stddev()**2 = var_unbiased/n",
-               "n >= 2 for the error statement (for n = 1 the code returns [0.0])"]
+            "model recycles them)",
+            "np.cov(bias=True), np.std(ddof=1), np.mean: modelled as the textbook sums; np.linalg.lstsq: by specification (existence of "
+            "the minimal-norm certificate w is established per replayed case, not proved in general)",
+            "not modelled: the density plots of the spot statistics, the order in which map_async delivers results (the theorem holds "
+            "for every order), nb_of_processes > 2 / None, control variates in the multi-process branch (same callback code)"]
+ASSUMPTIONS = ["the error is compared squared (Q has no square root): mc_stddev()**2 = var_unbiased/n",
+               "multi-process: the pool evaluates simulating_one_path once per iteration index and hands every result to the callback "
+               "(hypotheses `its` covers 0..n-1, sigma permutes the draws; checked on every real 2-process run by the oracle)",
+               "np.linalg.lstsq returns the minimal-norm least-squares solution (its documented specification)"]
 THEOREM_NOTES = {
     "C07_error_per_component": "model of the repaired tools.mc_stddev (fix-mc dee7ba4); the pre-repair divisor n*d is the Example C07_error_vector_before_repair",
-    "C07_cv_variance": "conditional on b solving the normal equations (the specification of inv(Sigma_X) @ Sigma_XY); variance is the biased "
-                       "sample variance np.cov(bias=True) the code uses (same inequality for the unbiased one: common factor n/(n-1))",
-    "C07_cv_bstar_solves_normal_equations": "closed-form b* for 1 and 2 controls only; 3+ controls are covered by the implementation oracle",
-    "C07_repricing_uses_own_paths": "state machine over pricings on one engine: Engine.initialisation allocates a new MCStatistics per pricing, so the "
-                                    "previous statistics never enter; tied by replaying pricing sequences (N then M<N, M>N, M=N) on one Engine instance",
+    "C07_cv_variance": "conditional on b solving the normal equations; variance is the biased sample variance np.cov(bias=True) the code uses "
+                       "(same inequality for the unbiased one: common factor n/(n-1)); C07_normal_equations_solvable shows the hypothesis is satisfiable for every sample and k",
+    "C07_cv_bstar_solves_normal_equations": "closed-form b* for 1 and 2 controls; the general k is C07_cv_code_b_any_k",
     "C07_repricing_uses_own_paths": "the model has both behaviours of initialisation (new statistics with arbitrary np.empty content / keep the old buffers); "
                                     "theorem for the code's branch, Example C07_keeping_the_buffers_is_wrong for the other",
     "C07_cv_variance_with_code_b": "composition: the b the code computes for 1-2 controls (guard included) never increases the variance",
-    "threshold": "repaired guard (fix-mc3 aaa3e1f): a control is degenerate when variance <= 1e-24 * mean(x^2); modelled as written (degenerate in "
-                 "Model/McStats.v), so a changed guard breaks the vm_compute correspondence of the adjusted rows (cases are normalised by the "
+    "C07_cv_optimal_any_k": "any k, any solution b of the normal equations (collinear controls included): var(adj b') = var(adj b) + var((b'-b).X) >= var(adj b) "
+                            "for every b' and all centring prices: b is THE sample regression coefficient; b' = 0 gives var(adj) <= var Y",
+    "C07_normal_equations_solvable": "existence for every k and sample by Gram-Schmidt on the controls (induction on k, Cauchy-Schwarz for a control without "
+                                     "residual variance); hence lstsq's least-squares minimiser is an exact solution of the normal equations",
+    "C07_lstsq_spec_unique": "uniqueness of the minimal-norm solution (specification of lstsq on the correlation scale, square-root free); existence of the "
+                             "certificate w is NOT proved in general (shown by the exact solve on every replayed case and by Example C07_three_collinear_controls)",
+    "C07_cv_code_b_any_k": "code_b = guard -> b = 0, else lstsq by specification; conclusion: var(adj) <= var Y always; without the guard least variance over all b' and uniqueness of b",
+    "C07_code_b_check_sound": "links the boolean the vm_compute correspondence evaluates (code_bb) to the Prop the theorems are about",
+    "C07_merge_any_order": "the value written at row it depends on it only (through sigma), so order / chunking / repeated delivery of results cannot matter; "
+                           "indices beyond n are excluded by hypothesis (numpy raises IndexError); single-process loop = instance (Corollary single_process_instance in Proofs/C07_StdFull.v)",
+    "C07_multiprocess_same_statistics": "hypothesis: sigma permutes 0..n-1 (every draw to exactly one index) -- a property of the pool that is observed on every real run, not proved",
+    "C07_engine_small_n": "n = 0: None models 'no value' (AttributeError for mc_stddev, nan for get_variance); n = 1: the single number 0.0 whatever d",
+    "C07_get_variance_textbook": "model of the repaired get_variance (744849b)",
+    "threshold": "repaired guard (fix-mc3 aaa3e1f): a control is degenerate when variance <= 1e-24 * mean(x^2); modelled as written (degenerate / any_degenerate), "
+                 "so a changed guard breaks the vm_compute correspondence of the adjusted rows (cases are normalised by the "
                  "power-of-two notionals, the implementation runs on notionals 2^-24 ... 2^20); the oracle separately flags 'b = 0 although no "
                  "control is degenerate'. The old absolute guard min|Sigma_X| < 1e-12 also fired for tiny notionals and for two uncorrelated controls (F-C07-3, repaired)",
 }
-LEVEL_TEXT = ("Proof: 8 Coq theorems (closed under the global context): for every path function, payoff, df, notional, size and np.empty "
+LEVEL_TEXT = ("Proof: 18 Coq theorems (closed under the global context): for every path function, payoff, df, notional, size and np.empty "
               "content the engine loop stores df*notional*payoff(path_i) for each path exactly once and price() is df*notional*mean per "
-              "component; every pricing of a sequence on one engine holds exactly its own paths; mc_stddev()^2 is the unbiased variance of each component divided by the number of paths; for every coefficient "
-              "vector b the control-variate mean is mean Y - b.(mean X - price); for any number of controls, if b solves the normal "
-              "equations then var(adj) = var Y - var(b.X) <= var Y, and the one/two-control closed forms do solve them. Model tied to "
-              "/repo by vm_compute replay of ~630 scripted Engine.price pricings incl. ~100 multi-pricing sequences on one engine (rows exact, statistics 1e-9, adjusted rows 1e-6).")
-LEVEL_NOTE = ("Trusted: Coq kernel + vm_compute; hand model Model/McStats.v (correspondence, not translation); numpy mean/std/cov "
-              "semantics; np.linalg.inv by specification; nb_of_processes = 1.")
-TECHNIQUE = "Coq proof (loop invariant, bilinearity of the sample covariance over Q) + vm_compute correspondence with a scripted process"
+              "component; the same for the multi-process branch for every order/chunking of the delivered results and every assignment of "
+              "draws to indices, with the spot statistics holding the spot of the same path, and price/error equal to the single-process "
+              "ones when every draw is used once (permutation invariance); every pricing of a sequence on one engine holds exactly its own "
+              "paths; mc_stddev()^2 is the unbiased variance of each component divided by the number of paths and get_variance() that "
+              "variance; n = 0 and n = 1 as reported; for every coefficient vector b the control-variate mean is mean Y - b.(mean X - price); "
+              "for ANY number of controls the normal equations are solvable, every solution b minimises the variance of Y - b'.(X - p') over "
+              "all b' (so var(adj) <= var Y), the minimal-norm solution the code's lstsq is specified to return is unique, and the one/two-"
+              "control closed forms solve the normal equations. Model tied to /repo by vm_compute replay of ~680 scripted Engine.price "
+              "pricings incl. ~100 multi-pricing sequences on one engine and 24 real 2-process runs (rows exact, statistics 1e-9, adjusted "
+              "rows 1e-6 against the exactly solved specification for 1-4 controls incl. collinear sets).")
+LEVEL_NOTE = ("Trusted: Coq kernel + vm_compute; hand models Model/McStats.v, McStdFull.v, McCv.v (correspondence, not translation); numpy "
+              "mean/std/cov semantics; np.linalg.lstsq by its specification (minimal-norm least squares); the pool calls every index once.")
+TECHNIQUE = ("Coq proof (loop invariant for all delivery orders, permutation invariance, bilinearity of the sample covariance over Q, Gram-Schmidt "
+             "existence, uniqueness of the minimal-norm solution) + vm_compute correspondence with scripted processes and exact Fraction certificates")
 
 TOL9 = Fraction(1, 10 ** 9)
-HEADER = ("From Coq Require Import ZArith QArith List Bool.\nFrom RV Require Import Base.QB Model.McStats.\nOpen Scope Q_scope.\n"
+HEADER = ("From Coq Require Import ZArith QArith List Bool.\nFrom RV Require Import Base.QB Model.McStats Model.McCv Model.McStdFull.\nOpen Scope Q_scope.\n"
           "Definition tol : Q := 1 # 1000000000.\nDefinition tol6 : Q := 1 # 1000000.\n")
 
 
@@ -82,7 +116,7 @@ def gen_controls(rng, ncv):
         out.append({"type": t, "K": rng.choice([2.0, 3.0, 4.0, 5.0]), "notional": rng.choice(CTRL_NOTIONALS)})
     if ncv >= 2 and rng.random() < 0.5:      # make sure call + put pairs are frequent
         out[0]["type"], out[1]["type"] = "call", "put"
-    if ncv == 3 and rng.random() < 0.5:      # COLLINEAR set: forward = call(K) - put(K) + K, Sigma_X is singular
+    if ncv >= 3 and rng.random() < 0.5:      # COLLINEAR set: forward = call(K) - put(K) + K, Sigma_X is singular
         K = rng.choice([2.0, 3.0, 4.0])
         for c, t in zip(out, ("fwd", "call", "put")):
             c["type"], c["K"] = t, K
@@ -95,7 +129,7 @@ def gen_spec(rng, tier):
     nmax = 40 if tier == "quick" else 300
     n = rng.choice([1, 1, 2, 2, 3, 4, 5, 7, 8, 11, 16, rng.randint(2, nmax), rng.randint(2, nmax)])
     d = rng.choice([1, 1, 1, 2, 2, 3, 4])
-    ncv = rng.choice([0, 0, 1, 1, 2, 2, 2, 3, 3])
+    ncv = rng.choice([0, 0, 1, 1, 2, 2, 2, 3, 3, 3, 4])
     return {"kind": "standard", "n": n, "d": d, "ncv": ncv, "vector_form": d > 1 or rng.random() < 0.3,
             "strikes": [rng.randrange(0, 40) / 8.0 for _ in range(d)],
             "paths": [rng.randrange(0, 65) / 8.0 for _ in range(n)],
@@ -263,6 +297,8 @@ def _det(S):
         return S[0][0]
     if k == 2:
         return S[0][0] * S[1][1] - S[0][1] * S[1][0]
+    if k > 3:
+        return c07_exact.det(S)
     return (S[0][0] * (S[1][1] * S[2][2] - S[1][2] * S[2][1]) - S[0][1] * (S[1][0] * S[2][2] - S[1][2] * S[2][0])
             + S[0][2] * (S[1][0] * S[2][1] - S[1][1] * S[2][0]))
 
@@ -429,7 +465,7 @@ def correspond(res):
     rng = random.Random(res.seed)
     _zero_paths(res)
     n_items = 420 if res.tier == "quick" else 5000
-    eng_cases, cv_cases = [], []
+    eng_cases, cv_cases, cvk_cases, low_k, all_k = [], [], [], 0, 0
     for i in range(n_items):
         specs = gen_sequence(rng, res.tier) if i % 4 == 3 else ([gen_tight(rng, res.tier)] if i % 10 == 1 else [gen_spec(rng, res.tier)])
         observations = run_sequence(specs)
@@ -467,8 +503,38 @@ def correspond(res):
                     xs = lst([lst([qlit(obs["X"][i2, c, j] / lx[c]) for c in range(ncv)]) for i2 in range(n)])
                     cv_cases.append(f"({natlit(ncv)}, {lst([qlit(spec['prices_used'][c][j] / lx[c]) for c in range(ncv)])}, {xs}, "
                                     f"{lst([qlit(v / ly) for v in obs['rows'][:, j]])}, {lst([qlit(v / ly) for v in obs['adj'][:, j]])})")
+            if ncv >= 1 and len(obs["rows"]) == n and obs["X"].shape == (n, ncv, d):
+                # ANY number of controls, collinear or not: the b the specification of the code determines (guard / minimal-norm
+                # solution of the normal equations on the correlation scale) comes from an exact Fraction solve together with its
+                # certificate w; Coq re-checks the specification (code_bb) and compares Y - b.(X - p) with the stored rows
+                ly = abs(spec["notional"])
+                lx = [abs(c["notional"]) for c in spec["controls"]]
+                for j in range(d):
+                    xn = [[Fraction(float(obs["X"][i2, c, j])) / Fraction(lx[c]) for c in range(ncv)] for i2 in range(n)]
+                    yn = [Fraction(float(v)) / Fraction(ly) for v in obs["rows"][:, j]]
+                    cert = c07_exact.lstsq_certificate(xn, yn)
+                    if cert["kind"] == "guard":
+                        cls = "guard (b = 0)"
+                    elif cert["rank"] < ncv:
+                        cls = f"collinear (rank {cert['rank']} < {ncv})"
+                    elif cert["rel_det"] < Fraction(1, 10 ** 9):
+                        res.bump("cvk_components_skipped_nearly_singular (|det| < 1e-9 prod diag, not singular)", f"k={ncv}")
+                        continue
+                    else:
+                        cls = "full rank"
+                    low_k += ncv <= 2
+                    if ncv <= 2 and cls != "collinear (rank 1 < 2)" and low_k % 3:
+                        continue
+                    all_k += 1
+                    if res.tier != "quick" and all_k % 3:
+                        continue     # thorough tier: every third component keeps the Coq replay within the time budget     # one and two non-collinear controls are also covered by the closed forms of the group `cv`
+                    res.bump("cvk_cases (any number of controls)", f"k={ncv} {cls}")
+                    cvk_cases.append(f"({natlit(ncv)}, {lst([qlit(Fraction(spec['prices_used'][c][j]) / Fraction(lx[c])) for c in range(ncv)])}, "
+                                     f"{lst([lst([qlit(v) for v in r]) for r in xn])}, {lst([qlit(v) for v in yn])}, "
+                                     f"{lst([qlit(Fraction(float(v)) / Fraction(ly)) for v in obs['adj'][:, j]])}, "
+                                     f"{lst([qlit(v) for v in cert['b']])}, {lst([qlit(v) for v in cert['w']])})")
         eng_cases.append(lst([_coq_case(sp, ob) for sp, ob in zip(specs, observations)]))
-    for name, cs in (("engine", eng_cases), ("cv", cv_cases)):
+    for name, cs in (("engine", eng_cases), ("cv", cv_cases), ("cvk", cvk_cases)):
         if not cs:
             res.broke(f"correspondence {name}", "the group has no case: nothing would be compared (generator or driver problem)")
     bad, nsh = parallel_coq_bad(PROP, "engine", HEADER, "list seq_case", "corr_seq tol", eng_cases,
@@ -486,6 +552,150 @@ def correspond(res):
     res.bump("cv_coq_cases", len(cv_cases))
     if bad:
         res.broke("correspondence cv", f"model and implementation differ on {len(bad)} control-variate components, first: {cv_cases[bad[0]][:1500]}")
+    else:
+        res.case_ok += nsh
+    if cvk_cases:
+        _cvk_group(res, cvk_cases)
+    correspond_full(res, rng)
+
+
+def _cvk_group(res, cvk_cases):
+    bad, nsh = parallel_coq_bad(PROP, "cvk", HEADER, "cvk_case", "corr_cvk tol6", cvk_cases, shard=40 if res.tier == "quick" else 100,
+                                timeout=900, jobs=12)
+    res.case_lemmas += nsh
+    if bad:
+        res.broke("correspondence cvk", f"model (specification of lstsq on the correlation scale, any number of controls) and implementation "
+                                        f"differ on {len(bad)} control-variate components, first: {cvk_cases[bad[0]][:1500]}")
+    else:
+        res.case_ok += nsh
+
+# ----------------------------------------------------------------------------- both branches of the loop, spot statistics, n = 0 / 1
+def gen_full(rng, tier, i):
+    """one pricing on a fresh engine, no controls: nb_of_processes = 1 or 2 (real pathos pool), spot statistics on / off,
+    n in {0, 1, 2, ...}; path values pairwise distinct (the spot statistics then identify which draw every row holds)"""
+    nproc = 2 if i % 2 else 1
+    n = [0, 1, 2, 3][(i // 2) % 4] if i < 16 else rng.choice([2, 3, 5, 8, 13, 24, 40] + ([120, 300] if tier != "quick" else []))
+    d = rng.choice([1, 1, 2, 3])
+    return {"kind": "full", "nproc": nproc, "n": n, "d": d, "ncv": 0, "vector_form": d > 1 or rng.random() < 0.3,
+            "strikes": [rng.randrange(0, 40) / 8.0 for _ in range(d)],
+            "paths": [v / 32.0 for v in rng.sample(range(0, 65 * 4), n)],
+            "df": rng.choice([1.0, 0.5, 0.25, 0.75]), "notional": rng.choice([1.0, 2.0, 0.5, 8.0]),
+            "controls": [], "price_mode": "arbitrary", "scalar_prices": True, "prices_raw": [],
+            "spot_stats": True if nproc == 2 else ((i // 8) % 2 == 0 if i < 16 else rng.random() < 0.5)}
+
+
+def run_full(spec):
+    from mcscript import ScriptedProcess, make_product, WarningCatcher
+    from c07_mp import ScriptedProcessMP
+    from rpylib.montecarlo.standard.engine import Engine
+    from rpylib.montecarlo.configuration import ConfigurationStandard
+    mp = spec["nproc"] != 1
+    proc = (ScriptedProcessMP if mp else ScriptedProcess)(spec["paths"], df=spec["df"], dimension=1)
+    if mp:
+        proc.reset()
+    eng = Engine(ConfigurationStandard(mc_paths=spec["n"], nb_of_processes=spec["nproc"], seed=None if mp else 7,
+                                       activate_spot_statistics=bool(spec["spot_stats"])), proc)
+    strikes = np.array(spec["strikes"])
+    if spec["vector_form"]:
+        fun = lambda x: np.maximum(x - strikes, 0.0)      # noqa
+    else:
+        fun = lambda x, k=spec["strikes"][0]: max(x - k, 0.0)              # noqa
+    product = make_product(notional=spec["notional"], dimension=spec["d"], fun=fun)
+    with WarningCatcher(), np.errstate(all="ignore"), warnings.catch_warnings():
+        warnings.simplefilter("ignore")
+        st = eng.price(product)
+        obs = {"calls": proc.drawn() if mp else proc.calls, "rows": np.array(st._payoff_statistics.stats),
+               "price_raw": np.atleast_1d(st.price(no_control_variates=True)).astype(float)}
+        obs["price"] = obs["price_raw"]
+        try:
+            obs["err_raw"] = np.atleast_1d(st.mc_stddev(no_control_variates=True)).astype(float)
+            obs["err_exc"] = None
+        except AttributeError as e:
+            obs["err_raw"], obs["err_exc"] = None, str(e)
+        obs["err"] = obs["err_raw"]
+        obs["variance_raw"] = np.atleast_1d(st.get_variance(no_control_variates=True)).astype(float)
+        obs["spot"] = np.array(st._spot_underlying_statistics.stats) if spec["spot_stats"] else None
+        obs["spot_class"] = type(st._spot_underlying_statistics).__name__
+    return obs
+
+
+def oracle_full(spec, obs):
+    """(violations, sigma): sigma[it] = number of the draw stored at row it (None when it cannot be determined)"""
+    out = []
+    n, d = spec["n"], spec["d"]
+    vals = [Fraction(v) for v in spec["paths"]]
+    if spec["spot_stats"]:
+        sp = obs["spot"]
+        if sp.shape != (n, 1):
+            return [("spot statistics on: the spot array is not (number of paths) x (spot dimension)", {"shape": list(sp.shape)})], None
+        seen = [Fraction(float(v)) for v in sp[:, 0]]
+        if sorted(seen) != sorted(vals):
+            return [("the simulated paths are not each used exactly once: the spot statistics do not hold every simulated spot value once",
+                     {"nb_of_processes": spec["nproc"], "stored_spots": [float(v) for v in seen][:12], "simulated": spec["paths"][:12]})], None
+        sigma = [vals.index(v) for v in seen]
+    else:
+        if obs["spot_class"] != "NoStatistic":
+            out.append(("spot statistics off but a spot array is kept", {}))
+        sigma = list(range(n))
+    if spec["nproc"] == 1 and sigma != list(range(n)):
+        out.append(("single-process loop: row i does not hold the i-th simulated path", {"sigma": sigma[:12]}))
+    if n == 0:
+        if obs["price_raw"].shape != (d,) or any(v != 0.0 for v in obs["price_raw"]):
+            out.append(("no path: price() is not 0 per component", {"reported": [float(v) for v in obs["price_raw"]]}))
+        return out, sigma
+    perm = dict(spec)
+    perm["paths"] = [spec["paths"][k] for k in sigma]        # the rows in the order the pool assigned them
+    o = dict(obs)
+    if obs["err_raw"] is None:
+        out.append(("mc_stddev() raised although there are paths", {"exception": obs["err_exc"]}))
+        o["err_raw"] = o["err"] = np.full(d, float("nan"))
+    o.pop("spot")
+    out += oracle(perm, o)
+    if n == 1 and (list(np.atleast_1d(obs["err_raw"])) != [0.0] or list(obs["variance_raw"]) != [0.0]):
+        out.append(("one path: mc_stddev() / get_variance() is not the single number 0.0", {"err": [float(v) for v in np.atleast_1d(obs["err_raw"])]}))
+    return out, sigma
+
+
+def _full_case(spec, obs, sigma):
+    n, d = spec["n"], spec["d"]
+    qrows = lambda a: lst([lst([qlit(v) for v in r]) for r in a])       # noqa
+    evar = None if obs["err_raw"] is None else [float(e) ** 2 for e in obs["err_raw"]]
+    egv = None if all(v != v for v in obs["variance_raw"]) else [float(v) for v in obs["variance_raw"]]
+    qs = lambda l: lst([qlit(v) for v in l])                              # noqa
+    return (f"({qs(spec['strikes'])}, {qs(spec['paths'])}, {qlit(spec['df'])}, {qlit(spec['notional'])}, {natlit(n)}, {blit(spec['spot_stats'])}, "
+            f"{lst([natlit(k) for k in sigma])}, ({qrows(obs['rows'])}, {opt(obs['spot'], qrows)}, {qs(obs['price_raw'])}, {opt(evar, qs)}, {opt(egv, qs)}))")
+
+
+def correspond_full(res, rng):
+    n_items = 48 if res.tier == "quick" else 600
+    cases = []
+    for i in range(n_items):
+        spec = gen_full(rng, res.tier, i)
+        obs = run_full(spec)
+        viol, sigma = oracle_full(spec, obs)
+        n = spec["n"]
+        res.count(("full", json.dumps(_payload(spec), sort_keys=True)), nontrivial=n >= 3 and (spec["nproc"] == 2 or spec["spot_stats"]),
+                  kind=f"loop nb_of_processes={spec['nproc']} spot_statistics={'on' if spec['spot_stats'] else 'off'}")
+        res.bump("full_runs (both loop branches)", f"nb_of_processes={spec['nproc']}, spot {'on' if spec['spot_stats'] else 'off'}, "
+                                                   f"n={'0' if n == 0 else '1' if n == 1 else '>=2'}")
+        if n == 0:
+            res.bump("n=0 (modelled)", f"price() {obs['price_raw'].tolist()}, mc_stddev() " +
+                     (f"raises AttributeError: {obs['err_exc']}" if obs["err_raw"] is None else str(obs["err_raw"].tolist())) +
+                     f", get_variance() {obs['variance_raw'].tolist()}")
+        if spec["nproc"] == 2 and sigma is not None and n >= 2:
+            res.bump("pool_assignment_sigma", "identity" if sigma == list(range(n)) else "a non-trivial permutation")
+        for what, det in viol:
+            res.violation(what, _payload(spec, **det))
+        if sigma is not None:
+            cases.append(_full_case(spec, obs, sigma))
+    if not cases:
+        res.broke("correspondence full", "the group has no case: nothing would be compared (generator or driver problem)")
+        return
+    bad, nsh = parallel_coq_bad(PROP, "full", HEADER, "full_case", "corr_full tol", cases, shard=24 if res.tier == "quick" else 100, timeout=900, jobs=12)
+    res.case_lemmas += nsh
+    if bad:
+        res.broke("correspondence full", f"model (both loop branches, spot statistics, n = 0 / 1, get_variance) and implementation differ on "
+                                         f"{len(bad)} pricings, first: {cases[bad[0]][:1500]}")
     else:
         res.case_ok += nsh
 
@@ -510,6 +720,14 @@ def replay(path):
     print(json.dumps(data, indent=1)[:3000])
     if data.get("kind") == "standard":
         specs = [{k: data[k] for k in SPEC_KEYS if k in data}]
+    elif data.get("kind") == "full":
+        spec = {k: data[k] for k in SPEC_KEYS + ("nproc",) if k in data}
+        obs = run_full(spec)
+        viol, sigma = oracle_full(spec, obs)
+        print(f"nb_of_processes {spec['nproc']}, configured paths {spec['n']}, price() {obs['price_raw']}, mc_stddev() {obs['err_raw']}, sigma {sigma}")
+        for what, det in viol:
+            print("VIOLATED:", what, det)
+        return 1 if viol else 0
     elif data.get("kind") == "sequence":
         specs = [{k: sp[k] for k in SPEC_KEYS if k in sp} for sp in data["sequence"]]
     else:
